@@ -97,9 +97,9 @@ Props/C04.vos Props/C04.vok Props/C04.required_vos: Props/C04.v Props/Shipped.vo
 Props/C05.vo Props/C05.glob Props/C05.v.beautified Props/C05.required_vo: Props/C05.v Props/Shipped.vo Spec/Lex.vo Spec/Grammar.vo Proofs/ScanRef.vo Proofs/ParseGrammar.vo Proofs/ApiFacts.vo
 Props/C05.vio: Props/C05.v Props/Shipped.vio Spec/Lex.vio Spec/Grammar.vio Proofs/ScanRef.vio Proofs/ParseGrammar.vio Proofs/ApiFacts.vio
 Props/C05.vos Props/C05.vok Props/C05.required_vos: Props/C05.v Props/Shipped.vos Spec/Lex.vos Spec/Grammar.vos Proofs/ScanRef.vos Proofs/ParseGrammar.vos Proofs/ApiFacts.vos
-Props/C06.vo Props/C06.glob Props/C06.v.beautified Props/C06.required_vo: Props/C06.v Props/Shipped.vo Spec/Eval.vo Proofs/ApiFacts.vo Proofs/Laws.vo Proofs/MatchProof.vo Proofs/Sat.vo
-Props/C06.vio: Props/C06.v Props/Shipped.vio Spec/Eval.vio Proofs/ApiFacts.vio Proofs/Laws.vio Proofs/MatchProof.vio Proofs/Sat.vio
-Props/C06.vos Props/C06.vok Props/C06.required_vos: Props/C06.v Props/Shipped.vos Spec/Eval.vos Proofs/ApiFacts.vos Proofs/Laws.vos Proofs/MatchProof.vos Proofs/Sat.vos
+Props/C06.vo Props/C06.glob Props/C06.v.beautified Props/C06.required_vo: Props/C06.v Props/Shipped.vo Spec/Eval.vo Spec/Units.vo WF/Units.vo Proofs/ApiFacts.vo Proofs/Laws.vo Proofs/MatchProof.vo Proofs/Sat.vo Proofs/RoundTrip.vo Proofs/BytesFacts.vo
+Props/C06.vio: Props/C06.v Props/Shipped.vio Spec/Eval.vio Spec/Units.vio WF/Units.vio Proofs/ApiFacts.vio Proofs/Laws.vio Proofs/MatchProof.vio Proofs/Sat.vio Proofs/RoundTrip.vio Proofs/BytesFacts.vio
+Props/C06.vos Props/C06.vok Props/C06.required_vos: Props/C06.v Props/Shipped.vos Spec/Eval.vos Spec/Units.vos WF/Units.vos Proofs/ApiFacts.vos Proofs/Laws.vos Proofs/MatchProof.vos Proofs/Sat.vos Proofs/RoundTrip.vos Proofs/BytesFacts.vos
 Props/C07.vo Props/C07.glob Props/C07.v.beautified Props/C07.required_vo: Props/C07.v Props/Shipped.vo Proofs/Laws.vo Proofs/Respell.vo
 Props/C07.vio: Props/C07.v Props/Shipped.vio Proofs/Laws.vio Proofs/Respell.vio
 Props/C07.vos Props/C07.vok Props/C07.required_vos: Props/C07.v Props/Shipped.vos Proofs/Laws.vos Proofs/Respell.vos
@@ -217,3 +217,6 @@ Proofs/ParseRel.vos Proofs/ParseRel.vok Proofs/ParseRel.required_vos: Proofs/Par
 Proofs/OnlyPairs.vo Proofs/OnlyPairs.glob Proofs/OnlyPairs.v.beautified Proofs/OnlyPairs.required_vo: Proofs/OnlyPairs.v Model/Api.vo Spec/Lex.vo Spec/Eval.vo Spec/WF.vo Spec/MatchSpec.vo Spec/Units.vo Spec/Spellings.vo Proofs/BytesFacts.vo Proofs/ScanRef.vo Proofs/NodeInv.vo Proofs/Sat.vo Proofs/ApiFacts.vo Proofs/Laws.vo Proofs/MatchProof.vo Proofs/Split.vo Proofs/Lexo.vo Proofs/Respell.vo Proofs/Replace.vo Proofs/SameParse.vo Proofs/ParseRel.vo Proofs/ParseGrammar.vo Proofs/CaseFold.vo Proofs/WFSound.vo
 Proofs/OnlyPairs.vio: Proofs/OnlyPairs.v Model/Api.vio Spec/Lex.vio Spec/Eval.vio Spec/WF.vio Spec/MatchSpec.vio Spec/Units.vio Spec/Spellings.vio Proofs/BytesFacts.vio Proofs/ScanRef.vio Proofs/NodeInv.vio Proofs/Sat.vio Proofs/ApiFacts.vio Proofs/Laws.vio Proofs/MatchProof.vio Proofs/Split.vio Proofs/Lexo.vio Proofs/Respell.vio Proofs/Replace.vio Proofs/SameParse.vio Proofs/ParseRel.vio Proofs/ParseGrammar.vio Proofs/CaseFold.vio Proofs/WFSound.vio
 Proofs/OnlyPairs.vos Proofs/OnlyPairs.vok Proofs/OnlyPairs.required_vos: Proofs/OnlyPairs.v Model/Api.vos Spec/Lex.vos Spec/Eval.vos Spec/WF.vos Spec/MatchSpec.vos Spec/Units.vos Spec/Spellings.vos Proofs/BytesFacts.vos Proofs/ScanRef.vos Proofs/NodeInv.vos Proofs/Sat.vos Proofs/ApiFacts.vos Proofs/Laws.vos Proofs/MatchProof.vos Proofs/Split.vos Proofs/Lexo.vos Proofs/Respell.vos Proofs/Replace.vos Proofs/SameParse.vos Proofs/ParseRel.vos Proofs/ParseGrammar.vos Proofs/CaseFold.vos Proofs/WFSound.vos
+Proofs/RoundTrip.vo Proofs/RoundTrip.glob Proofs/RoundTrip.v.beautified Proofs/RoundTrip.required_vo: Proofs/RoundTrip.v Model/Api.vo Spec/Lex.vo Spec/Grammar.vo Spec/Eval.vo Spec/WF.vo Spec/Units.vo Spec/Spellings.vo Proofs/BytesFacts.vo Proofs/ScanRef.vo Proofs/NodeInv.vo Proofs/Sat.vo Proofs/ApiFacts.vo Proofs/Laws.vo Proofs/MatchProof.vo Proofs/WFSound.vo Proofs/Split.vo Proofs/Lexo.vo Proofs/Respell.vo Proofs/Replace.vo Proofs/SameParse.vo Proofs/ParseGrammar.vo Proofs/CaseFold.vo Proofs/Congruence.vo
+Proofs/RoundTrip.vio: Proofs/RoundTrip.v Model/Api.vio Spec/Lex.vio Spec/Grammar.vio Spec/Eval.vio Spec/WF.vio Spec/Units.vio Spec/Spellings.vio Proofs/BytesFacts.vio Proofs/ScanRef.vio Proofs/NodeInv.vio Proofs/Sat.vio Proofs/ApiFacts.vio Proofs/Laws.vio Proofs/MatchProof.vio Proofs/WFSound.vio Proofs/Split.vio Proofs/Lexo.vio Proofs/Respell.vio Proofs/Replace.vio Proofs/SameParse.vio Proofs/ParseGrammar.vio Proofs/CaseFold.vio Proofs/Congruence.vio
+Proofs/RoundTrip.vos Proofs/RoundTrip.vok Proofs/RoundTrip.required_vos: Proofs/RoundTrip.v Model/Api.vos Spec/Lex.vos Spec/Grammar.vos Spec/Eval.vos Spec/WF.vos Spec/Units.vos Spec/Spellings.vos Proofs/BytesFacts.vos Proofs/ScanRef.vos Proofs/NodeInv.vos Proofs/Sat.vos Proofs/ApiFacts.vos Proofs/Laws.vos Proofs/MatchProof.vos Proofs/WFSound.vos Proofs/Split.vos Proofs/Lexo.vos Proofs/Respell.vos Proofs/Replace.vos Proofs/SameParse.vos Proofs/ParseGrammar.vos Proofs/CaseFold.vos Proofs/Congruence.vos
